@@ -259,7 +259,7 @@ fn from_occupancy_spike(max_per_kind: u32) {
 /// to a position it does not describe.  Fully symbolic position (<= 2 pieces per kind and colour), fully symbolic move
 /// consistent with it (every move class), spike attack function.
 #[kani::proof]
-#[kani::unwind(18)]
+#[kani::unwind(66)]
 #[kani::stub(crate::attacks::AttackGenerator::compute, stub_compute_spike)]
 fn c10_successor_answers_are_fresh() {
     use crate::state::verif_c02::{consistent, rights_wf};
